@@ -15,9 +15,16 @@
 (*                              exists -> use it (cuts cycles)             *)
 (*                              else   -> refInsert, build(c)              *)
 (*                 setTo (ref.To = built)                                  *)
-(*   return        [Unlock]; the caller then walks the returned schema     *)
+(*   validate      after the root's setTo: every ref registered by this    *)
+(*                 call is checked (validateBuiltRef: an object flattened  *)
+(*                 into itself, duplicate property names); types in        *)
+(*                 Invalid fail the check                                  *)
+(*   rollback      a rejected build removes every ref it registered        *)
+(*   return / fail [Unlock]; the caller then walks the returned schema     *)
 (*                                                                         *)
 (* Guard = "mutex" models a lock held over the whole of Schema();          *)
+(* Guard = "early" releases it before the validation and takes it again    *)
+(* for the rollback (a tempting "shorter critical section");               *)
 (* Guard = "none" is the same algorithm without it and is used to derive   *)
 (* attack schedules that are then forced on the real code.                 *)
 (*                                                                         *)
@@ -31,8 +38,9 @@ CONSTANTS
     Types,      \* message types
     ChildSeq,   \* [Types -> Seq(Types)]: message-typed fields in declaration order
     Pkg,        \* [Types -> STRING]: package of each type
+    Invalid,    \* subset of Types: schemas that build but are rejected by the validation of the built refs
     CallChoices,\* set of [Procs -> Seq(Types)]: root types each goroutine encodes/decodes, in order
-    Guard,      \* "mutex" | "none"
+    Guard,      \* "mutex" | "early" | "none"
     Mode        \* "check" | "attack" | "trace"
 
 None == "-"
@@ -47,13 +55,14 @@ VARIABLES
     root,     \* [Procs -> root type of the call in progress]
     stack,    \* [Procs -> Seq of frames [t, i, kids]]
     ret,      \* [Procs -> object being returned, or None]
+    added,    \* [Procs -> set of types whose ref the call in progress registered] (sc.added)
     calls0,   \* [Procs -> all calls] (constant through a behaviour)
     calls,    \* [Procs -> remaining calls]
     results,  \* [Procs -> Seq of <<type, "ok"|"unlinked"|"orphan">>]
     hist,     \* schedule so far: Seq of <<proc, label, key>> (attack mode only)
     bad       \* attack mode: a call returned something it does not return when run alone
 
-vars == <<pkgs, smap, built, edges, lock, pc, root, stack, ret, calls0, calls, results, hist, bad>>
+vars == <<pkgs, smap, built, edges, lock, pc, root, stack, ret, added, calls0, calls, results, hist, bad>>
 
 FullName(t) == Pkg[t] \o "." \o t
 
@@ -61,6 +70,7 @@ Label(c) ==
     CASE c \in {"pkgLookup", "fPkgLookup", "refPkgLookup"} -> "pkgLookup"
       [] c \in {"pkgInsert", "refPkgInsert"} -> "pkgInsert"
       [] c \in {"retOk", "retUnlinked"} -> "return"
+      [] c = "retErr" -> "fail"
       [] OTHER -> c
 
 Top(p) == stack[p][Len(stack[p])]
@@ -95,6 +105,7 @@ Init ==
     /\ lock = None
     /\ pc = [p \in Procs |-> "idle"] /\ root = [p \in Procs |-> None]
     /\ stack = [p \in Procs |-> <<>>] /\ ret = [p \in Procs |-> None]
+    /\ added = [p \in Procs |-> {}]
     /\ calls0 \in CallChoices /\ calls = calls0 /\ results = [p \in Procs |-> <<>>]
     /\ hist = <<>> /\ bad = FALSE
 
@@ -104,15 +115,15 @@ Init ==
 Begin(p, t) ==
     /\ pc[p] = "idle"
     /\ pc' = [pc EXCEPT ![p] = "enter"] /\ root' = [root EXCEPT ![p] = t]
-    /\ UNCHANGED <<pkgs, smap, built, edges, lock, stack, ret, calls0, calls, results, hist, bad>>
+    /\ UNCHANGED <<pkgs, smap, built, edges, lock, stack, ret, calls0, calls, results, hist, bad, added>>
 
 \* segment after "enter": acquire the mutex (if any)
 Enter(p) ==
     /\ pc[p] = "enter"
-    /\ IF Guard = "mutex" THEN lock = None /\ lock' = p ELSE UNCHANGED lock
+    /\ IF Guard \in {"mutex", "early"} THEN lock = None /\ lock' = p ELSE UNCHANGED lock
     /\ pc' = [pc EXCEPT ![p] = "pkgLookup"]
     /\ Record(p)
-    /\ UNCHANGED <<pkgs, smap, built, edges, root, stack, ret, calls0, calls, results, bad>>
+    /\ UNCHANGED <<pkgs, smap, built, edges, root, stack, ret, calls0, calls, results, bad, added>>
 
 \* referencePackage: map read
 PkgLookup(p) ==
@@ -123,7 +134,7 @@ PkgLookup(p) ==
               [] pc[p] = "refPkgLookup" -> IF k \in pkgs THEN "refLookup" ELSE "refPkgInsert"
               [] pc[p] = "fPkgLookup"   -> FramePc(Top(p))]      \* refTo already inserted it
     /\ Record(p)
-    /\ UNCHANGED <<pkgs, smap, built, edges, lock, root, stack, ret, calls0, calls, results, bad>>
+    /\ UNCHANGED <<pkgs, smap, built, edges, lock, root, stack, ret, calls0, calls, results, bad, added>>
 
 \* referencePackage: map write
 PkgInsert(p) ==
@@ -131,7 +142,7 @@ PkgInsert(p) ==
     /\ pkgs' = pkgs \cup {Key(p)}
     /\ pc' = [pc EXCEPT ![p] = IF pc[p] = "pkgInsert" THEN "lookup" ELSE "refLookup"]
     /\ Record(p)
-    /\ UNCHANGED <<smap, built, edges, lock, root, stack, ret, calls0, calls, results, bad>>
+    /\ UNCHANGED <<smap, built, edges, lock, root, stack, ret, calls0, calls, results, bad, added>>
 
 \* Schemas[name] read in Schema()
 Lookup(p) ==
@@ -143,7 +154,7 @@ Lookup(p) ==
               THEN pc' = [pc EXCEPT ![p] = "retOk"] /\ ret' = [ret EXCEPT ![p] = <<t, smap[t]>>]
               ELSE pc' = [pc EXCEPT ![p] = "retUnlinked"] /\ UNCHANGED ret
     /\ Record(p)
-    /\ UNCHANGED <<pkgs, smap, built, edges, lock, root, stack, calls0, calls, results, bad>>
+    /\ UNCHANGED <<pkgs, smap, built, edges, lock, root, stack, calls0, calls, results, bad, added>>
 
 \* placeholder insert in Schema(), then the build starts
 Insert(p) ==
@@ -152,6 +163,7 @@ Insert(p) ==
          /\ smap' = [smap EXCEPT ![t] = p]
          /\ stack' = [stack EXCEPT ![p] = <<NewFrame(t)>>]
          /\ pc' = [pc EXCEPT ![p] = FramePc(NewFrame(t))]
+         /\ added' = [added EXCEPT ![p] = {t}]
     /\ Record(p)
     /\ UNCHANGED <<pkgs, built, edges, lock, root, ret, calls0, calls, results, bad>>
 
@@ -167,7 +179,7 @@ RefLookup(p) ==
               /\ pc' = [pc EXCEPT ![p] = FramePc(f2)]
          ELSE /\ pc' = [pc EXCEPT ![p] = "refInsert"] /\ UNCHANGED stack
     /\ Record(p)
-    /\ UNCHANGED <<pkgs, smap, built, edges, lock, root, ret, calls0, calls, results, bad>>
+    /\ UNCHANGED <<pkgs, smap, built, edges, lock, root, ret, calls0, calls, results, bad, added>>
 
 RefInsert(p) ==
     /\ pc[p] = "refInsert"
@@ -175,6 +187,7 @@ RefInsert(p) ==
          /\ smap' = [smap EXCEPT ![c] = p]
          /\ stack' = [stack EXCEPT ![p] = Append(stack[p], NewFrame(c))]
          /\ pc' = [pc EXCEPT ![p] = StartPc(p, c)]
+         /\ added' = [added EXCEPT ![p] = @ \cup {c}]
     /\ Record(p)
     /\ UNCHANGED <<pkgs, built, edges, lock, root, ret, calls0, calls, results, bad>>
 
@@ -186,26 +199,54 @@ SetTo(p) ==
          /\ edges' = edges \cup { <<me, f.kids[i]>> : i \in 1..Len(f.kids) }
          /\ IF n = 1
             THEN /\ stack' = [stack EXCEPT ![p] = <<>>]
-                 /\ pc' = [pc EXCEPT ![p] = "retOk"]
+                 /\ pc' = [pc EXCEPT ![p] = "validate"]
                  /\ ret' = [ret EXCEPT ![p] = me]
             ELSE LET par == stack[p][n - 1]
                      par2 == [par EXCEPT !.i = par.i + 1, !.kids = Append(par.kids, me)] IN
                  /\ stack' = [stack EXCEPT ![p] = Append(SubSeq(stack[p], 1, n - 2), par2)]
                  /\ pc' = [pc EXCEPT ![p] = FramePc(par2)]
                  /\ UNCHANGED ret
+    \* Guard = "early": the lock is given up as soon as the root is linked, before the validation
+    /\ lock' = IF Guard = "early" /\ Len(stack[p]) = 1 THEN None ELSE lock
     /\ Record(p)
-    /\ UNCHANGED <<pkgs, smap, lock, root, calls0, calls, results, bad>>
+    /\ UNCHANGED <<pkgs, smap, root, calls0, calls, results, bad, added>>
+
+\* validateBuiltRef over the refs this call registered
+Validate(p) ==
+    /\ pc[p] = "validate"
+    /\ pc' = [pc EXCEPT ![p] = IF added[p] \cap Invalid # {} THEN "rollback" ELSE "retOk"]
+    /\ Record(p)
+    /\ UNCHANGED <<pkgs, smap, built, edges, lock, root, stack, ret, added, calls0, calls, results, bad>>
+
+\* a rejected build leaves nothing behind: every ref registered by this call is removed again
+Rollback(p) ==
+    /\ pc[p] = "rollback"
+    /\ IF Guard = "early" THEN lock = None /\ lock' = p ELSE UNCHANGED lock
+    /\ LET mine == { <<t, p>> : t \in added[p] } IN
+         /\ smap' = [t \in Types |-> IF t \in added[p] /\ smap[t] = p THEN None ELSE smap[t]]
+         /\ built' = built \ mine
+         /\ edges' = { e \in edges : e[1] \notin mine }
+    /\ pc' = [pc EXCEPT ![p] = "retErr"] /\ ret' = [ret EXCEPT ![p] = None]
+    /\ Record(p)
+    /\ UNCHANGED <<pkgs, root, stack, added, calls0, calls, results, bad>>
 
 \* Schema() returns, the mutex is released, and the caller walks the schema it was given
+\* types a call on t registers in an empty cache, and what the call returns when it runs alone
+RECURSIVE ReachT(_)
+ReachT(S) == LET N == S \cup UNION { { ChildSeq[t][i] : i \in 1..Len(ChildSeq[t]) } : t \in S } IN IF N = S THEN S ELSE ReachT(N)
+AloneOutcome(t) == IF ReachT({t}) \cap Invalid # {} THEN "rejected" ELSE "ok"
+
 Outcome(p) ==
     IF pc[p] = "retUnlinked" THEN "unlinked"
+    ELSE IF pc[p] = "retErr" THEN "rejected"
     ELSE IF \E m \in Closure({ret[p]}) : m \notin built THEN "orphan" ELSE "ok"
 
 Return(p) ==
-    /\ pc[p] \in {"retOk", "retUnlinked"}
+    /\ pc[p] \in {"retOk", "retUnlinked", "retErr"}
     /\ results' = [results EXCEPT ![p] = Append(results[p], <<root[p], Outcome(p)>>)]
-    /\ bad' = (bad \/ (Mode = "attack" /\ Outcome(p) # "ok"))
-    /\ IF Guard = "mutex" THEN lock' = None ELSE UNCHANGED lock
+    /\ bad' = (bad \/ (Mode = "attack" /\ Outcome(p) # AloneOutcome(root[p])))
+    /\ IF Guard = "mutex" \/ (Guard = "early" /\ lock = p) THEN lock' = None ELSE UNCHANGED lock
+    /\ added' = [added EXCEPT ![p] = {}]
     /\ pc' = [pc EXCEPT ![p] = "idle"] /\ root' = [root EXCEPT ![p] = None] /\ ret' = [ret EXCEPT ![p] = None]
     /\ calls' = [calls EXCEPT ![p] = IF calls[p] = <<>> THEN <<>> ELSE Tail(calls[p])]
     /\ Record(p)
@@ -213,7 +254,7 @@ Return(p) ==
 
 Step(p) ==
     \/ Enter(p) \/ PkgLookup(p) \/ PkgInsert(p) \/ Lookup(p) \/ Insert(p)
-    \/ RefLookup(p) \/ RefInsert(p) \/ SetTo(p) \/ Return(p)
+    \/ RefLookup(p) \/ RefInsert(p) \/ SetTo(p) \/ Validate(p) \/ Rollback(p) \/ Return(p)
 
 AllDone == \A p \in Procs : pc[p] = "idle" /\ calls[p] = <<>>
 
@@ -248,7 +289,8 @@ Access(p) ==
       [] pc[p] \in {"lookup", "refLookup"} -> <<"schemas", "r">>
       [] pc[p] \in {"insert", "refInsert"} -> <<"schemas", "w">>
       [] pc[p] = "setTo" -> <<"to", "w">>
-      [] pc[p] = "retOk" -> <<"to", "r">>
+      [] pc[p] \in {"retOk", "validate"} -> <<"to", "r">>
+      [] pc[p] = "rollback" -> <<"schemas", "w">>
       [] OTHER -> <<"none", "r">>
 
 \* two goroutines are simultaneously about to touch the same location, one of them writing:
@@ -260,7 +302,11 @@ DataRace ==
 NoDataRace == ~DataRace
 
 \* every call returns what it returns when run alone
-SameAsAlone == \A p \in Procs : \A i \in 1..Len(results[p]) : results[p][i][2] = "ok"
+SameAsAlone == \A p \in Procs : \A i \in 1..Len(results[p]) : results[p][i][2] = AloneOutcome(results[p][i][1])
+
+\* nothing of a rejected build is visible once the lock is free
+RejectedNeverCached ==
+    (Guard = "mutex" /\ lock = None) => \A t \in Types : smap[t] # None => AloneOutcome(t) = "ok"
 
 \* each type is built exactly once per cache
 BuiltOnce == \A t \in Types : Cardinality({ o \in built : o[1] = t }) <= 1
@@ -275,9 +321,9 @@ Termination == <>[]AllDone
 EmitAttack ==
     (Mode = "attack" /\ bad) =>
         PrintT(<<"CASE", ToJson([hist |-> hist, results |-> results, calls |-> calls0,
-                                 graph |-> [t \in Types |-> [pkg |-> Pkg[t], children |-> ChildSeq[t]]]])>>)
+                                 graph |-> [t \in Types |-> [pkg |-> Pkg[t], children |-> ChildSeq[t], selfflat |-> t \in Invalid]]])>>)
 
 \* history is excluded from the view: each distinct algorithm state is explored once,
 \* with the (shortest, BFS) schedule that reached it first
-View == <<pkgs, smap, built, edges, lock, pc, root, stack, ret, calls0, calls, results, bad>>
+View == <<pkgs, smap, built, edges, lock, pc, root, stack, ret, added, calls0, calls, results, bad>>
 =============================================================================
